@@ -14,7 +14,7 @@ from vf.report import Report
 
 INVARIANTS = ["TypeOK", "OnlySetParamsChangesParams", "Provenance", "HistoryIndependent", "ReadersNeedAModel",
               "PathOnlyWhenOffered", "Emit"]
-PER_CLASS = {"quick": (360, 220), "thorough": (4000, 2500)}      # replayed histories per class (without / with path)
+PER_CLASS = {"quick": (360, 220), "thorough": (3000, 1500)}      # replayed histories per class (without / with path)
 MAXLEN = {"quick": 4, "thorough": 5}
 CAP = 3                                                           # violations reported per (class, kind)
 
@@ -126,6 +126,8 @@ def run_class(rep, name, hs, buf, viol, counters):
     fps = list(groups.items())
     for i in range(len(fps)):
         for j in range(i + 1, len(fps)):
+            if "raised" in fps[i][1][1].fp or "raised" in fps[j][1][1].fp:
+                continue
             if L.first_diff(fps[i][1][1].fp, fps[j][1][1].fp) is None:
                 raise MachineryError(f"{name}: finals {fps[i][0]} and {fps[j][0]} give identical models - configurations too similar")
 
